@@ -186,6 +186,7 @@ def r3_semantics(ctx):
     from ..absint import explore
     fn = ctx.func('syntax', 'is_syntax_valid')
     g = ctx.cfg(fn)
+    consts = A.module_constants(ctx.mod('syntax').tree)
     POS = ((1, 2), (2, 4), (1, 2, 3), (2, 4, 5), (1, 2, 3, 4), (1, 3, 4, 6))
     for letter in 'PRECL':
         bad = []
@@ -219,7 +220,7 @@ def r3_semantics(ctx):
                         raise AnalysisError('syntax:is_syntax_valid[%s]: a test cannot be decided (note positions %s, segment %s): %s'
                                             % (letter, list(pos), list(vals), norm(nd.ast)))
                     try:
-                        explore(g, {'syn': (letter,) + pos, 'seg_data': seg}, funcs=funcs, on_node=on_node, on_unknown=unk)
+                        explore(g, dict(consts, syn=(letter,) + pos, seg_data=seg), funcs=funcs, on_node=on_node, on_unknown=unk)
                     except RuntimeError as e:
                         raise AnalysisError('syntax:is_syntax_valid: %s' % e)
                     n += 1
@@ -228,6 +229,9 @@ def r3_semantics(ctx):
                         violated = present[0] and SPEC_VIOLATED[letter](sum(present[1:]), len(pos))
                     else:
                         violated = SPEC_VIOLATED[letter](sum(present), len(pos))
+                    if '?' in outs or not outs:
+                        raise AnalysisError('syntax:is_syntax_valid[%s]: the verdict returned is not determined (note positions %s, segment %s)'
+                                            % (letter, list(pos), list(vals)))
                     if set(outs) != {not violated}:
                         bad.append('note %s%s on a segment with values %s: %s, X12 says %s' % (
                             letter, ''.join('%02d' % p_ for p_ in pos), list(vals),
@@ -391,6 +395,15 @@ def r8_reads_are_pure(ctx):
         yield o
 
 
+def r10_positions(ctx):
+    """a note is evaluated on which positions are present: the segment must count every position it holds (a note that
+    mentions position 4 of a three-element segment sees it absent; trailing empty elements the text had are positions
+    too) and hold a separate object for each (presence of one position must not follow another).  C17.R8 (shared)."""
+    from . import c17
+    for o in c17.r8_positions(ctx):
+        yield o
+
+
 def r9_every_note_is_loaded(ctx):
     """a note can only be evaluated if the loader kept it: segment_if.__init__ decided by constant propagation on a
     segment definition with several notes - two notes of different type on the same positions (QTY has E0204 and R0204),
@@ -453,6 +466,7 @@ RULES = [
     Rule('C14.R4', 'failed note -> ele_error code 10 iff E else 2, result cleared; satisfied note reports nothing', r4_routing, floor=3),
     Rule('C14.R7', 'shared with C01.R8: a composite of empty components formats to the empty string', r7_presence_through_format, floor=2),
     Rule('C14.R8', 'shared with C17.R6: reading a segment (get_value, len, format) does not modify it and caches nothing', r8_reads_are_pure, floor=30),
+    Rule('C14.R10', 'shared with C17.R8: len() counts every position, one separate Composite per element', r10_positions, floor=3),
     Rule('C14.R6', 'shared with C03.R2: the error node of a violated note is linked into the error tree on every path', r6_reports_reach_the_tree, floor=2),
     Rule('C14.R5', 'the element a note error is attached to is looked up without raising', r5_attachment_lookup, floor=2),
 ]
